@@ -7,7 +7,7 @@ for n in $NAMES; do
   P=$(echo $n | cut -d- -f1)
   WT=$(mktemp -d /tmp/evalwt_XXXX); rmdir $WT
   git -C /repo worktree add -q --detach $WT HEAD || exit 9
-  if ! (cd $WT && git apply /verif/seeded/$n/patch.diff 2>/dev/null); then echo "$n PATCH-DOES-NOT-APPLY"; git -C /repo worktree remove --force $WT; continue; fi
+  if ! (cd $WT && git apply $(pwd)/seeded/$n/patch.diff 2>/dev/null); then echo "$n PATCH-DOES-NOT-APPLY"; git -C /repo worktree remove --force $WT; continue; fi
   out=$(COMA_REPO=$WT timeout 1800 ./vcheck $P --tier quick 2>&1); rc=$?
   line=$(echo "$out" | grep -m1 "^FAILED-OBLIGATION" | cut -c1-220)
   und=$(echo "$out" | grep -m1 "^UNDECIDED" | cut -c1-160)
